@@ -410,7 +410,8 @@ impl TmplGroup {
                 w.expr_stmt(|w| {
                     write!(
                         w,
-                        r#"R[{path}]=D({path},(require,exports,module)=>{{{}}})"#,
+                        // (the script may end in a line comment)
+                        "R[{path}]=D({path},(require,exports,module)=>{{{}\n}})",
                         script,
                         path = gen_lit_str(p)
                     )?;
